@@ -226,4 +226,106 @@ theorem civilFromDays_daysFromCivil (y m d : Int) (hy : 1 ≤ y) (hv : validDate
 /-- minutes since the epoch of a UTC date and time of day -/
 def instantMin (y mo d h mi : Int) : Int := (daysFromCivil y mo d * 24 + h) * 60 + mi
 
+section
+open Edxml.Gate
+
+
+/-- what `civilFromDays` yields is a date of the calendar -/
+theorem civilFromDays_validDate (z : Int) (hz : -719468 ≤ z) :
+    validDate (civilFromDays z).1 (civilFromDays z).2.1 (civilFromDays z).2.2 := by
+  simp only [civilFromDays, validDate]
+  have h0 : z + 719468 ≥ 0 := by omega
+  simp only [h0, if_true]
+  generalize hE : (z + 719468) / 146097 = era
+  generalize hD : z + 719468 - era * 146097 = doe
+  have hdoe : 0 ≤ doe ∧ doe ≤ 146096 := by omega
+  have hera : 0 ≤ era := by omega
+  obtain ⟨n, rfl⟩ : ∃ n : Nat, doe = (n : Int) := ⟨doe.toNat, by omega⟩
+  have hf := era_facts n (by omega)
+  simp only at hf
+  generalize hY : ((n : Int) - (n : Int) / 1460 + (n : Int) / 36524 - (n : Int) / 146096) / 365 = yoe
+  have hyn : yoe = (((n - n / 1460 + n / 36524 - n / 146096) / 365 : Nat) : Int) := by omega
+  generalize hYn : (n - n / 1460 + n / 36524 - n / 146096) / 365 = yn at hf hyn
+  subst hyn
+  generalize hO : (n : Int) - (365 * (yn : Int) + (yn : Int) / 4 - (yn : Int) / 100) = doy
+  generalize hM : (5 * doy + 2) / 153 = mp
+  have hdoy : 0 ≤ doy ∧ doy ≤ 365 := by omega
+  have hleap : doy ≤ 364 ∨ (((yn : Int) + 1) % 4 = 0 ∧ (((yn : Int) + 1) % 100 ≠ 0 ∨ (yn : Int) = 399)) := by omega
+  have hmp : 0 ≤ mp ∧ mp ≤ 11 := by omega
+  have hcases : mp = 0 ∨ mp = 1 ∨ mp = 2 ∨ mp = 3 ∨ mp = 4 ∨ mp = 5 ∨ mp = 6 ∨ mp = 7 ∨ mp = 8 ∨ mp = 9 ∨ mp = 10 ∨ mp = 11 := by omega
+  rcases hcases with rfl | rfl | rfl | rfl | rfl | rfl | rfl | rfl | rfl | rfl | rfl | rfl
+  case inr.inr.inr.inr.inr.inr.inr.inr.inr.inr.inr =>
+    -- February: the last month of the year that starts in March
+    clear hf hY hYn hD hE hdoe hO
+    simp only [daysInMonth, show ¬ ((11 : Int) < 10) by decide, if_false, show (11 : Int) - 9 = 2 by decide, show (2 : Int) ≤ 2 by decide, if_true]
+    refine ⟨by decide, by decide, by omega, ?_⟩
+    by_cases hl : leapYear ((yn : Int) + era * 400 + 1) = true
+    · simp only [hl, if_true]; omega
+    · simp only [hl, Bool.false_eq_true, if_false]
+      have hnl : ¬ ((((yn : Int) + 1) % 4 = 0 ∧ (((yn : Int) + 1) % 100 ≠ 0 ∨ (yn : Int) = 399))) := by
+        intro hc
+        apply hl
+        simp only [leapYear, Bool.and_eq_true, Bool.or_eq_true, beq_iff_eq, bne_iff_ne]
+        have h4 : ((yn : Int) + era * 400 + 1) % 4 = ((yn : Int) + 1) % 4 := by omega
+        have h100 : ((yn : Int) + era * 400 + 1) % 100 = ((yn : Int) + 1) % 100 := by omega
+        refine ⟨by omega, ?_⟩
+        rcases hc.2 with h | h
+        · exact Or.inl (by omega)
+        · exact Or.inr (by omega)
+      have : doy ≤ 364 := by
+        rcases hleap with h | h
+        · exact h
+        · exact absurd h hnl
+      omega
+  all_goals (clear hf hY hYn hD hE hdoe hO hleap; simp [daysInMonth]; omega)
+
+
+theorem leapYear_eq_isLeap (y : Nat) : leapYear (y : Int) = isLeap y := by
+  unfold leapYear isLeap
+  have e4 : ((y : Int) % 4 == 0) = (y % 4 == 0) := by
+    rw [Bool.eq_iff_iff]; simp only [beq_iff_eq]; omega
+  have e100 : ((y : Int) % 100 != 0) = (y % 100 != 0) := by
+    rw [Bool.eq_iff_iff]; simp only [bne_iff_ne, ne_eq]; omega
+  have e400 : ((y : Int) % 400 == 0) = (y % 400 == 0) := by
+    rw [Bool.eq_iff_iff]; simp only [beq_iff_eq]; omega
+  rw [e4, e100, e400]
+  by_cases h400 : y % 400 = 0
+  · have h4 : y % 4 = 0 := by omega
+    simp [h400, h4]
+  · have hc : (y % 400 == 0) = false := by simpa using h400
+    rw [hc]; simp
+
+theorem validDate_nat (y m d : Nat) (h : validDate y m d) : 1 ≤ m ∧ m ≤ 12 ∧ 1 ≤ d ∧ d ≤ daysIn y m := by
+  obtain ⟨h1, h2, h3, h4⟩ := h
+  refine ⟨by omega, by omega, by omega, ?_⟩
+  unfold daysInMonth at h4
+  unfold daysIn
+  rw [leapYear_eq_isLeap] at h4
+  by_cases hm : m = 2
+  · subst hm
+    have h2 : ((2 : Nat) : Int) = 2 := rfl
+    simp only [h2, if_true, beq_self_eq_true] at h4 ⊢
+    by_cases hl : isLeap y = true
+    · simp only [hl, if_true] at h4 ⊢; omega
+    · simp only [hl, Bool.false_eq_true, if_false] at h4 ⊢; omega
+  · have hm' : ¬ ((m : Int) = 2) := by omega
+    simp only [hm', if_false] at h4
+    have hb : (m == 2) = false := by simpa using hm
+    simp only [hb, Bool.false_eq_true, if_false]
+    by_cases h30 : m = 4 ∨ m = 6 ∨ m = 9 ∨ m = 11
+    · have : ((m : Int) = 4 ∨ (m : Int) = 6 ∨ (m : Int) = 9 ∨ (m : Int) = 11) := by omega
+      simp only [this, if_true] at h4
+      have hb2 : (m == 4 || m == 6 || m == 9 || m == 11) = true := by
+        rcases h30 with h | h | h | h <;> simp [h]
+      simp only [hb2, if_true]; omega
+    · have : ¬ ((m : Int) = 4 ∨ (m : Int) = 6 ∨ (m : Int) = 9 ∨ (m : Int) = 11) := by omega
+      simp only [this, if_false] at h4
+      have hb2 : (m == 4 || m == 6 || m == 9 || m == 11) = false := by
+        simp only [Bool.or_eq_false_iff, beq_eq_false_iff_ne, ne_eq]
+        omega
+      simp only [hb2, Bool.false_eq_true, if_false]; omega
+
+
+end
+
 end Edxml.Norm
